@@ -160,9 +160,9 @@ def _mk_b2(name, pal, tiers, timeout):
 
 _mk_b2("standard", STANDARD_PALETTE, ("quick", "thorough"), 300)
 _mk_b2("windows", WINDOWS_PALETTE, ("quick", "thorough"), 300)
-_mk_b("standard", ColorSystem.STANDARD, ColorType.STANDARD, STANDARD_PALETTE, {"bv": 32, "query_timeout_ms": 600000},
+_mk_b("standard", ColorSystem.STANDARD, ColorType.STANDARD, STANDARD_PALETTE, {"bv": 64, "query_timeout_ms": 600000},
       ("quick", "thorough"), 600)
-_mk_b("windows", ColorSystem.WINDOWS, ColorType.WINDOWS, WINDOWS_PALETTE, {"bv": 32, "query_timeout_ms": 600000},
+_mk_b("windows", ColorSystem.WINDOWS, ColorType.WINDOWS, WINDOWS_PALETTE, {"bv": 64, "query_timeout_ms": 600000},
       ("quick", "thorough"), 600)
 
 
@@ -268,7 +268,7 @@ def c18_f_256(n: int, fg: bool) -> bool:
 
 
 # --- history independence: converting one colour to several systems in either order (S) ---------------------------------
-@symx("C18-b-cross-system-order", timeout=900, kind="S", functions=F_MATCH, opts={"bv": 32, "query_timeout_ms": 600000},
+@symx("C18-b-cross-system-order", timeout=900, kind="S", functions=F_MATCH, opts={"bv": 64, "query_timeout_ms": 600000},
       bounds="all 2^24 (r,g,b): the same colour converted to standard then windows, and (on fresh objects with the same "
              "components) to windows then standard, within one execution: each result is minimal for ITS palette whatever was "
              "converted before (caches must not leak between palettes or calls)",
@@ -293,3 +293,44 @@ def c18_cross(e):
                     direct = sym_and(direct, dn <= mine[j])
                 ok = sym_and(ok, sym_or(out.number == ref, direct), out.number >= 0, out.number < 16)
     return ok
+
+
+# --- exact violation condition split by the entry the code prefers (S) ------------------------------------------------------
+def _mk_pref(name, system, pal, tiers, timeout):
+    @symx("C18-b-preferred-entry-%s" % name, tiers=tiers, timeout=timeout, kind="S", functions=F_MATCH,
+          opts={"bv": 64, "query_timeout_ms": 1200000},
+          bounds="all 2^24 (r,g,b): there is no palette entry i whose key (as the code computes it) is <= every other key while some "
+                 "entry j is strictly nearer under the documented metric - the exact condition for a wrong answer, stated entry by "
+                 "entry so that the solver can split on i instead of reasoning through the nested argmin; in concrete replay the "
+                 "property itself (the returned entry is minimal) is evaluated",
+          stubs=["L2 sqrt recorder", "S3"])
+    def h(e):
+        r, g, b, c = _truecolor(e)
+        colors = pal._colors
+        with _sqrt_keys() as rec:
+            out = _downgrade(c, system)
+        mine = [_dist(r, g, b, colors[j]) for j in range(16)]
+        if isinstance(r, int):
+            # concrete replay: property level
+            n = out.number
+            return all(mine[n] <= mine[j] for j in range(16))
+        if len(rec.args) != 16:
+            return False
+        keys = rec.args
+        ok = True
+        for i in range(16):
+            prefers_i = True
+            for k in range(16):
+                if k != i:
+                    prefers_i = sym_and(prefers_i, keys[i] <= keys[k])
+            nearer = False
+            for j in range(16):
+                if j != i:
+                    nearer = sym_or(nearer, mine[j] < mine[i])
+            ok = sym_and(ok, sym_not(sym_and(prefers_i, nearer)))
+        return ok
+    return h
+
+
+_mk_pref("standard", ColorSystem.STANDARD, STANDARD_PALETTE, ("quick", "thorough"), 1500)
+_mk_pref("windows", ColorSystem.WINDOWS, WINDOWS_PALETTE, ("quick", "thorough"), 1500)
